@@ -46,10 +46,12 @@ SYN = {'BO': '[', 'BC': ']', 'CO': '{', 'CC': '}', 'COMMA': ',', 'COLON': ':', '
 def gen_options(rng):
     o = dict(delim=rng.random() < 0.75, afd=rng.random() < 0.5, mafd=rng.random() < 0.5,
              bdelim=rng.random() < 0.5, b2delim=rng.random() < 0.5, nullable_item=False,
-             bmafd=rng.random() < 0.5,
+             bmafd=rng.random() < 0.5, bm_same=rng.random() < 0.4, b_nullable=False,
              seq_containers=rng.random() < 0.3)
     if o['delim'] and not o['afd'] and rng.random() < 0.4:
         o['nullable_item'] = True
+    if o['bdelim'] and rng.random() < 0.4:
+        o['b_nullable'] = True     # bracket-less list with delimiter and omittable items
     return o
 
 
@@ -57,7 +59,8 @@ def mk_parser(o):
     seq_symbols = ['WORD', 'NUMBER', 'PAR'] + (['LIST', 'MAP'] if o['seq_containers'] else [])
     prods = {
         'E': [('BL2', '|', 'BMAP', '|', 'VALUE', ';', 'OPT_TAIL')],
-        'BMAP': MapProds(None, 'WORD', ':', 'NUMBER', ',', None, allow_final_delimiter=o['bmafd']),
+        'BMAP': MapProds(None, 'WORD', ':', 'WORD' if o['bm_same'] else 'NUMBER', ',', None,
+                         allow_final_delimiter=o['bmafd']),
         'OPT_TAIL': [('OLIST', 'OMAP', 'BLIST')],
         'VALUE': [('WORD',), ('NUMBER',), ('LIST',), ('MAP',), ('SEQ_H',)],
         'LIST': ListProds('[', 'ITEM', ',' if o['delim'] else None, ']',
@@ -69,7 +72,8 @@ def mk_parser(o):
         'PAR': [('(', 'WORD', ')')],
         'OLIST': ListProds('[', 'WORD', ',', ']', optional=True),
         'OMAP': MapProds('{', 'WORD', ':', 'NUMBER', ',', '}', optional=True),
-        'BLIST': ListProds(None, 'NUMBER', ',' if o['bdelim'] else None, None),
+        'BLIST': ListProds(None, 'BITEM' if o['b_nullable'] else 'NUMBER', ',' if o['bdelim'] else None, None),
+        'BITEM': [('NUMBER',), None],
         'BL2': ListProds(None, 'WORD', ',' if o['b2delim'] else None, None),
     }
     return llparser.LLParser(TOK, synonyms=SYN, productions=prods)
@@ -310,8 +314,8 @@ def build_text(rng, o, v, bl2, ol, om, bl, bad_target=None, bad_tail=None, bm=()
         text += "]" + ws(rng)
     if om is not None:
         text += "{" + ", ".join(k + ws(rng) + ":" + x for k, x in om) + "}" + ws(rng)
-    text += (" , " if o['bdelim'] else sep(rng)).join(bl)
-    if bad_tail and bl and o['bdelim']:
+    text += (" , " if o['bdelim'] else sep(rng)).join("" if x is None else x for x in bl)
+    if bad_tail and bl and o['bdelim'] and not o['b_nullable']:
         text += " ,"
         rnd.bad_done = True
     text += ws(rng)
@@ -412,7 +416,12 @@ def run_shard(ctx):
             om = None if rng.random() < 0.4 else [(rng.choice(["k", "m"]), str(rng.randint(0, 9)))
                                                   for _ in range(rng.randint(0, 3))]
             bl = [str(rng.randint(0, 99)) for _ in range(rng.randint(0, 4))]
-            bm = [(rng.choice(["k", "m", "z"]), str(rng.randint(0, 9))) for _ in range(rng.choice([0, 0, 1, 2, 4]))]
+            if o['b_nullable']:
+                bl = [None if rng.random() < 0.3 else x for x in bl]
+                if bl == [None]:
+                    bl = []          # a single omitted item is textually the empty list
+            bm = [(rng.choice(["k", "m", "z"]), rng.choice(["v", "w", "k"]) if o['bm_same'] else str(rng.randint(0, 9)))
+                  for _ in range(rng.choice([0, 0, 1, 2, 4]))]
             negative = False
             bad_target = None
             bad_tail = False
@@ -420,7 +429,7 @@ def run_shard(ctx):
                 n = count_containers(v)
                 if n and rng.random() < 0.8:
                     bad_target = rng.randrange(n)
-                elif bl and o['bdelim']:
+                elif bl and o['bdelim'] and not o['b_nullable']:
                     bad_tail = True
             text, rnd = build_text(rng, o, v, bl2, ol, om, bl, bad_target, bad_tail, bm)
             negative = rnd.bad_done
